@@ -1882,6 +1882,10 @@ func (p *Parser) parseCallLike() ast.Expr {
 	for !noMore {
 		namedArg := p.tryParseNamedArg()
 		if namedArg == nil {
+			if len(namedArgs) > 0 {
+				// a comma after a named argument must be followed by another named argument
+				p.panicfAtToken(&p.Token, "expected named argument, but: %s", p.Token.Kind)
+			}
 			break
 		}
 		namedArgs = append(namedArgs, namedArg)
